@@ -215,3 +215,57 @@ def exact_pow2_truediv():
         return orig_int(val) if base is _MISSING else orig_int(val, base)
 
     _core._PATCH_REGISTRATIONS[int] = _int
+
+
+def int_str_roundtrip():
+    """8. str(symbolic int) forks once per decimal digit (the library model builds the digits with div/mod); prophyc
+    stores every evaluated constant as str(value) and reads it back with int().  str(i) now returns a string object
+    that remembers i: int(str(i)) == i is returned directly (exact for every int i), truthiness is True (a decimal
+    rendering is never empty); any *other* string operation computes the digits exactly as the library model does."""
+    import crosshair.core_and_libs  # noqa: F401
+    import crosshair.core as _core
+    from crosshair.tracers import NoTracing, ResumedTracing
+    from crosshair.libimpl import builtinslib as _bl
+    from crosshair.util import CrossHairValue
+    orig_repr = _bl.SymbolicInt.__repr__
+
+    class IntStr(_bl.LazyIntSymbolicStr):
+        def __init__(self, src):
+            self._src = src
+            self._cp = None
+
+        @property
+        def _codepoints(self):
+            if self._cp is None:
+                with ResumedTracing():
+                    self._cp = orig_repr(self._src)._codepoints
+            return self._cp
+
+        @_codepoints.setter
+        def _codepoints(self, v):
+            self._cp = v
+
+        def __bool__(self):
+            return True
+
+    def __repr__(self):
+        with NoTracing():
+            if hasattr(self, 'var'):
+                return IntStr(self)
+        return orig_repr(self)
+
+    _bl.SymbolicInt.__repr__ = __repr__
+    _bl.SymbolicInt.__str__ = __repr__
+
+    orig_int = _core._PATCH_REGISTRATIONS[int]
+    _MISSING = _bl._MISSING
+
+    def _int(val=0, base=_MISSING):
+        with NoTracing():
+            if type(val) is IntStr and (base is _MISSING or (type(base) is int and base == 10)):
+                return val._src
+            if not isinstance(val, CrossHairValue) and not isinstance(base, CrossHairValue):
+                return int(val) if base is _MISSING else int(val, base)
+        return orig_int(val) if base is _MISSING else orig_int(val, base)
+
+    _core._PATCH_REGISTRATIONS[int] = _int
